@@ -8,6 +8,7 @@ import (
 	"os"
 	"path/filepath"
 	"sort"
+	"strconv"
 	"strings"
 
 	apiv1 "k8s.io/api/core/v1"
@@ -399,12 +400,27 @@ func runSeq(r *rng.R, n, steps int) {
 			rng.Shuffle(cr, objs)
 		}
 		c := p.NewController(opts)
+		// metadata.resourceVersion as the API server assigns it: ONE cluster-wide increasing counter, rendered in
+		// decimal, bumped on every write (create, update, delete). The counter starts so that the initial objects end
+		// just below a digit-length boundary (10, 100, 1000, 10000): the events of the history then cross 9->10,
+		// 99->100, 999->1000, … (a controller must not order resourceVersions, least of all as strings).
+		boundary := uint64(10)
+		for boundary < uint64(len(objs))+4 || (boundary < 10000 && cr.Chance(50, 100)) {
+			boundary *= 10
+		}
+		rv := boundary - uint64(len(objs)) - uint64(cr.Intn(4)) - 1
+		nextRV := func() string {
+			rv++
+			return strconv.FormatUint(rv, 10)
+		}
 		for _, o := range objs {
+			o.SetResourceVersion(nextRV())
 			c.Upsert(o)
 		}
 		out := c.Apply(nil)
 		served := Observe(out, objs, opts.Controller)
-		emit(line{K: "e2e", ID: fmt.Sprintf("q%d.0", i), In: Flatten(objs), Obs: served, Desc: "initial"})
+		emit(line{K: "e2e", ID: fmt.Sprintf("q%d.0", i), In: Flatten(objs), Obs: served,
+			Desc: fmt.Sprintf("initial (resourceVersions up to %d)", rv)})
 		if out.Panic != "" {
 			panics++
 			continue
@@ -415,12 +431,15 @@ func runSeq(r *rng.R, n, steps int) {
 			desc := ""
 			for _, e := range evs {
 				if e.Upsert != nil {
+					e.Upsert.SetResourceVersion(nextRV())
 					c.Upsert(e.Upsert)
+					desc += fmt.Sprintf("%s [resourceVersion %s]; ", e.Desc, e.Upsert.GetResourceVersion())
 				} else {
+					nextRV() // a delete is a write, too
 					c.Delete(e.Delete, client.ObjectKeyFromObject(e.Delete))
+					desc += e.Desc + "; "
 				}
 				objs = applyEvent(objs, e)
-				desc += e.Desc + "; "
 			}
 			out = c.Apply(nil)
 			if out.Panic != "" {
